@@ -61,6 +61,9 @@ impl MT292 {
             });
         }
 
+        // Reject content left after the last field of the message
+        verify_parser_complete(&parser)?;
+
         Ok(MT292 {
             field_20,
             field_21,
